@@ -49,6 +49,9 @@ static const rtosc::Ports lin_ports = {
 static const rtosc::Ports enum_ports = { {"ch#16/gain:i", "", 0, hit}, {"ch#16/mute:T:F", "", 0, hit}, {"bus#4:i", "", 0, hit} };
 static const rtosc::Ports long_sub_ports = { {"inner_parameter_with_a_long_name:i", "", 0, hit}, {"x:i", "", 0, hit} };
 static const rtosc::Ports hashed_ports = { {"a_port_name_longer_than_sixteen_characters:i", "", 0, hit}, {"another_quite_long_port_name_for_the_hash:f", "", 0, hit}, {"subtree_with_a_long_name/", "", &long_sub_ports, [](const char *m, rtosc::RtData &d) { while (*m && *m != '/') ++m; if (*m) ++m; long_sub_ports.dispatch(m, d); }}, {"alpha:i", "", 0, hit}, {"beta:i", "", 0, hit}, {"gamma:f", "", 0, hit}, {"delta:", "", 0, hit}, {"epsilon:s", "", 0, hit}, {"zeta:ii", "", 0, hit}, {"eta:b", "", 0, hit}, {"theta", "", 0, hit} };
+static Counter g_cap_a, g_cap_b, g_cap_c;
+static const rtosc::ClonePorts clone2_ports(hashed_ports, { {"beta:i", [pa = &g_cap_a](const char *, rtosc::RtData &) { pa->hits++; }},
+    {"*", [pa = &g_cap_a, pb = &g_cap_b, pc = &g_cap_c](const char *, rtosc::RtData &) { pa->hits++; pb->hits++; pc->hits++; }} });   // a default handler whose closure does not fit std::function's inline storage
 static const rtosc::ClonePorts clone_ports(hashed_ports, { {"alpha:i", [](const char *, rtosc::RtData &d) { ((Counter *)d.obj)->hits += 100; }}, {"*", [](const char *, rtosc::RtData &d) { ((Counter *)d.obj)->hits += 1000; }} });
 
 struct Rig { app::App appobj; L1 deep; Counter lin, en, hs, cl, raw; };
@@ -60,6 +63,7 @@ static const rtosc::Ports root_ports = {
     {"enum/", "", &enum_ports, [](const char *m, rtosc::RtData &d) { Rig *r = (Rig *)d.obj; d.obj = &r->en; SNIPM enum_ports.dispatch(m, d); }},
     {"hash/", "", &hashed_ports, [](const char *m, rtosc::RtData &d) { Rig *r = (Rig *)d.obj; d.obj = &r->hs; SNIPM hashed_ports.dispatch(m, d); }},
     {"clone/", "", &clone_ports, [](const char *m, rtosc::RtData &d) { Rig *r = (Rig *)d.obj; d.obj = &r->cl; SNIPM clone_ports.dispatch(m, d); }},
+    {"clone2/", "", &clone2_ports, [](const char *m, rtosc::RtData &d) { Rig *r = (Rig *)d.obj; d.obj = &r->cl; SNIPM clone2_ports.dispatch(m, d); }},
 };
 
 struct RtOut : rtosc::RtData {
@@ -90,7 +94,7 @@ struct RtWorld : World {
     }
     void gen(const std::string &, Rng &kr, Rng &pr, Knobs &k, Plan &p) override {
         k.assign(3, 0); k[0] = kr.pick(std::vector<int64_t>{48, 64, 128, 256, 1024}); k[1] = 1 + kr.below(8); k[2] = kr.chance(0.8);
-        int n = 1 + (int)pr.below(60);
+        int n = 1 + (int)pr.below(g_tier ? 150 : 60);
         for (int i = 0; i < n; i++) { Op o; double u = pr.unit();
             if (u < 0.5) { o.kind = UI_SEND; o.a[0] = pr.below(M_NKINDS); o.a[1] = (int64_t)pr.below(100000); o.a[2] = pr.below(3); }
             else if (u < 0.8) { o.kind = RT_TICK; o.a[0] = 1 + pr.below(6); }
@@ -123,7 +127,7 @@ struct RtWorld : World {
                     else if (kind == M_APP_BADTYPE) { len = rtosc_message(buf, sizeof buf, addr, "hd", (int64_t)5, 2.0); stat_add(F_WRONG_TYPE); }
                     else switch (l.kind) { case app::K_PARAM_C: len = rtosc_message(buf, sizeof buf, addr, "c", (int)r.below(200) - 40); break; case app::K_PARAM_I: case app::K_ARR_I: len = rtosc_message(buf, sizeof buf, addr, "i", (int)r.below(3000) - 1500); break;
                         case app::K_PARAM_F: len = rtosc_message(buf, sizeof buf, addr, "f", (double)r.below(2000) / 100.0 - 10); break; case app::K_TOGGLE: len = rtosc_message(buf, sizeof buf, addr, r.chance(0.5) ? "T" : "F"); break;
-                        case app::K_OPTION: if (r.chance(0.5)) len = rtosc_message(buf, sizeof buf, addr, "S", l.opts[r.below(l.opts.size())].c_str()); else len = rtosc_message(buf, sizeof buf, addr, "i", (int)r.below(6) - 1); break;
+                        case app::K_OPTION: if (r.chance(0.2)) len = rtosc_message(buf, sizeof buf, addr, "S", "no_such_option_symbol_at_all"); else if (r.chance(0.5)) len = rtosc_message(buf, sizeof buf, addr, "S", l.opts[r.below(l.opts.size())].c_str()); else len = rtosc_message(buf, sizeof buf, addr, "i", (int)r.below(6) - 1); break;
                         case app::K_STRING: len = rtosc_message(buf, sizeof buf, addr, "s", "some string value that is long"); break; }
                     break; }
                 case M_NOMATCH: { static const char *nm_[] = {"/nope", "/app/nope", "/app/sub/nope", "/app/subs7/si", "/app/subs1/nope", "/deep/b/c/zz", "/deep/b/q/x", "/enum/ch16/gain", "/enum/ch3/nope", "/hash/alph", "/hash/alphaa", "/lin/du", "/", "/app"};
@@ -133,7 +137,7 @@ struct RtWorld : World {
                 case M_ENUM: snprintf(addr, sizeof addr, r.chance(0.5) ? "/enum/ch%d/gain" : "/enum/bus%d", (int)r.below(20)); len = rtosc_message(buf, sizeof buf, addr, "i", 3); break;
                 case M_HASH: { static const char *h[] = {"/hash/alpha", "/hash/beta", "/hash/gamma", "/hash/delta", "/hash/epsilon", "/hash/zeta", "/hash/eta", "/hash/theta", "/hash/a_port_name_longer_than_sixteen_characters", "/hash/another_quite_long_port_name_for_the_hash", "/hash/subtree_with_a_long_name/inner_parameter_with_a_long_name", "/hash/subtree_with_a_long_name/x", "/hash/a_port_name_longer_than_sixteen_characterz", "/hash/subtree_with_a_long_name/nope"}; int w = (int)r.below(14);
                     len = w == 2 ? rtosc_message(buf, sizeof buf, h[w], "f", 1.0) : w == 3 ? rtosc_message(buf, sizeof buf, h[w], "") : w == 4 ? rtosc_message(buf, sizeof buf, h[w], "s", "e") : w == 5 ? rtosc_message(buf, sizeof buf, h[w], "ii", 1, 2) : w == 6 ? rtosc_message(buf, sizeof buf, h[w], "b", 3, "abc") : w == 9 ? rtosc_message(buf, sizeof buf, h[w], "f", 2.0) : rtosc_message(buf, sizeof buf, h[w], "i", 1); break; }
-                case M_CLONE: len = rtosc_message(buf, sizeof buf, r.chance(0.5) ? "/clone/alpha" : r.chance(0.5) ? "/clone/unknown-name" : "/clone/beta", "i", 1); break;
+                case M_CLONE: { static const char *c_[] = {"/clone/alpha", "/clone/unknown-name", "/clone/beta", "/clone2/beta", "/clone2/unknown-name", "/clone2/alph", "/clone2/a_port_name_longer_than_sixteen_characterz"}; len = rtosc_message(buf, sizeof buf, c_[r.below(7)], "i", 1); break; }
                 case M_BIGADDR: { memset(addr, 'a', sizeof addr); addr[0] = '/'; addr[200 + r.below(300)] = 0; len = rtosc_message(buf, sizeof buf, addr, "i", 1); stat_add(F_NO_MATCH); break; }
                 case M_BIGREPLY: len = rtosc_message(buf, sizeof buf, "/lin/big", ""); break;
                 case M_MANYARGS: { int n = 17 + (int)r.below(24); char ts[48]; for (int q = 0; q < n; q++) ts[q] = "ifTs"[q % 4]; ts[n] = 0; std::vector<rtosc_arg_t> a(n); size_t vi_ = 0; for (int q = 0; q < n; q++) { if (ts[q] == 'i') a[vi_++].i = q; else if (ts[q] == 'f') a[vi_++].f = q; else if (ts[q] == 's') a[vi_++].s = "s"; } len = rtosc_amessage(buf, sizeof buf, "/lin/any", ts, a.data()); break; }
@@ -154,9 +158,9 @@ struct RtWorld : World {
                             d->matches = 0; uint64_t f0 = d->forwarded, o0 = d->oversize;
                             if (with_loc) { d->obj = rig; root_ports.dispatch(m, *d, true); }
                             else { d->obj = rawc; d->loc = nullptr; d->loc_size = 0; const char *mm = m; if (*mm == '/') mm++; while (*mm && *mm != '/') ++mm; if (*mm == '/') mm++;   // second path component on: hand-written tables only
-                                if (!strncmp(m, "/lin/", 5)) lin_ports.dispatch(mm, *d); else if (!strncmp(m, "/enum/", 6)) enum_ports.dispatch(mm, *d); else if (!strncmp(m, "/hash/", 6)) hashed_ports.dispatch(mm, *d); else if (!strncmp(m, "/clone/", 7)) clone_ports.dispatch(mm, *d); probes[P_NOLOC]++; }
+                                if (!strncmp(m, "/lin/", 5)) lin_ports.dispatch(mm, *d); else if (!strncmp(m, "/enum/", 6)) enum_ports.dispatch(mm, *d); else if (!strncmp(m, "/hash/", 6)) hashed_ports.dispatch(mm, *d); else if (!strncmp(m, "/clone/", 7)) clone_ports.dispatch(mm, *d); else if (!strncmp(m, "/clone2/", 8)) clone2_ports.dispatch(mm, *d); probes[P_NOLOC]++; }
                             disp++; if (d->matches) reached = true;
-                            if (!strncmp(m, "/hash/", 6)) probes[P_HASHED]++; else if (!strncmp(m, "/lin/", 5)) probes[P_LINEAR]++; else if (!strncmp(m, "/enum/", 6)) probes[P_ENUM]++; else if (!strncmp(m, "/deep/b/c/", 10)) probes[P_NESTED3]++; else if (!strncmp(m, "/clone/", 7)) probes[P_DEFAULT_HANDLER]++;
+                            if (!strncmp(m, "/hash/", 6)) probes[P_HASHED]++; else if (!strncmp(m, "/lin/", 5)) probes[P_LINEAR]++; else if (!strncmp(m, "/enum/", 6)) probes[P_ENUM]++; else if (!strncmp(m, "/deep/b/c/", 10)) probes[P_NESTED3]++; else if (!strncmp(m, "/clone", 6)) probes[P_DEFAULT_HANDLER]++;
                             else if (!strncmp(m, "/app/", 5)) { if (*rtosc_argument_string(m)) probes[P_MACRO_SET]++; else probes[P_MACRO_QUERY]++; }
                             if (d->forwarded != f0) probes[P_REPLY_FWD]++; if (d->oversize != o0) probes[F_OVERSIZE_REPLY]++;
                         }
